@@ -4,7 +4,7 @@ C09 — closing everything: `closeAllOps w` closes every session and every facto
 still open; it is a well-formed continuation of any history and leaves everything closed.
 -/
 set_option linter.unusedVariables false
-namespace AsherahVerif.Env
+namespace AsherahVerif.Env.Res
 
 theorem applyOp_closeSession_flags (w : World) (s : Nat) :
     (applyOp w (.closeSession s)).2.sessions = setAt w.sessions s (fun x => { x with closed := true }) ∧
@@ -182,4 +182,4 @@ theorem closeAll_spec (w : World) :
         simp only [lf, List.mem_filter, List.mem_range]
         exact ⟨getElem?_lt hfac0, by rw [getD_eq_of_getElem? hfac0]; simpa using hc⟩
 
-end AsherahVerif.Env
+end AsherahVerif.Env.Res
